@@ -124,6 +124,8 @@ type live struct {
 	m       *model
 	rep     *reporter
 	dead    bool
+
+	syncEvents int // autofile.synced events seen for this directory
 }
 
 const tick = time.Millisecond
@@ -350,6 +352,7 @@ func (lv *live) applyEvents(r *rec, l0 int64) error {
 	for _, e := range lv.drain() {
 		switch e.kind {
 		case evSynced:
+			lv.syncEvents++
 			if f := m.file(e.name); f != nil && e.size > f.Synced {
 				f.Synced = e.size
 			}
